@@ -215,5 +215,30 @@ def run(ck):
                              % (fname.split("::")[-1], own.split("::")[-1], other.split("::")[-1], ", ".join(st.fact_keys())[:160]), fl7.witness(st))
     ck.need(nclose >= 4, "C06: expected the four close() sites of writeClientDone/writeServerDone, found %d" % nclose)
 
+    ck.rule("W8 idle timers of a tunnel (label consistency in keepGoingAfterRead): activity in one direction refreshes the read timeout of *both* connections "
+            "(bug 3659: very long one-way transfers): each commSetConnTimeout(X.conn, ...) is made under Comm::IsConnOpen(X.conn) for that same X, and both the "
+            "source and the destination parameter get one. If the destination's refresh lands on the source again, a silent receiver's timer runs out in the "
+            "middle of a long transfer and tunnelTimeout tears the tunnel down")
+    kg = facts.fn("TunnelStateData::keepGoingAfterRead")
+    kfl = ck.flow(kg)
+    conns = [p_["d"] for p_ in kg.params if "Connection" in (p_.get("t") or "")]
+    ck.need(len(conns) == 2, "C06: keepGoingAfterRead no longer takes the two tunnel connections")
+    refreshed = set()
+    conn_of = lambda t: sorted({n["d"] for n in E.walk(t) if n.get("k") == "ref" and n.get("d") in conns})
+    for st in ck.sites(kfl, ev_call("commSetConnTimeout"), "commSetConnTimeout()", 2):
+        who = conn_of(E.strip(st.ev["x"])["a"][0])
+        ck.need(len(who) == 1, "C06: commSetConnTimeout() in keepGoingAfterRead is not given one of the two connections")
+        guard = E.M(lambda t, who=who: E.strip(t).get("k") == "call" and E.strip(t).get("f") == "Comm::IsConnOpen" and conn_of(t) == who, "Comm::IsConnOpen(%s.conn)" % who[0])
+        if st.has(guard, True):
+            refreshed.add(who[0])
+            ck.ok("W8.both-timers-refreshed", st.where(), "keepGoingAfterRead: timeout of %s.conn refreshed under IsConnOpen(%s.conn)" % (who[0], who[0]))
+        else:
+            ck.violation("W8.both-timers-refreshed", "W8|keepGoingAfterRead|timeout-on|%s" % who[0], st.where(), "keepGoingAfterRead refreshes the timeout of %s.conn where only "
+                         "the other connection was tested open (facts: %s): the connection this block is about keeps its old deadline" % (who[0], ", ".join(st.fact_keys())[:120]), kfl.witness(st))
+    if refreshed != set(conns):
+        ck.violation("W8.both-timers-refreshed", "W8|keepGoingAfterRead|not-both", kg.where(), "keepGoingAfterRead refreshes the read timeout of %s only, not of both %s" % (sorted(refreshed), conns))
+    else:
+        ck.ok("W8.both-timers-refreshed", kg.where(), "keepGoingAfterRead refreshes both %s" % conns)
+
     ck.assume("payload equality and delivery under arbitrary segmentation are not decided; Comm::Write/comm_read deliver what they are given; "
               "delay pools' bytesWanted() <= its upper bound; TLS-bumped and pre-read (preReadClientData/ServerData) byte accounting is only checked through W1/W4")
